@@ -37,13 +37,15 @@ ASSUMPTIONS = [
     "messages are compared after parsing with the anchored line grammar and mapping every quoted name back",
 ]
 
-RENAMINGS = ["lengths", "adversarial", "adversarial2", "adversarial3", "hyphen", "case"]
+RENAMINGS = ["lengths", "adversarial", "adversarial2", "adversarial3", "hyphen", "case", "case2"]
 NAMING_MAPS = dict(NAMINGS)
 NAMING_MAPS["adversarial2"] = {"r": "a", "a": "a_", "b": "aa", "c": "a_a", "d": "aaa", "e": "ab", "p": "a__", "q": "aab"}
 # a nested module r.a.b next to a sibling package r.a_b: '.' vs. any other single character
 NAMING_MAPS["adversarial3"] = {"r": "r", "a": "a", "b": "b", "c": "a_b", "d": "a-b", "e": "aXb"}
 # siblings that differ in letter case only or sort differently with and without regard to case
 NAMING_MAPS["case"] = {"r": "r", "a": "alpha", "b": "Beta", "c": "ALPHA", "d": "beta", "e": "Alpha_b", "p": "P", "q": "q"}
+# the package that has sub modules is the only capitalised sibling: it sorts first by code point, last without regard to case
+NAMING_MAPS["case2"] = {"r": "r", "a": "Zed", "b": "alpha", "c": "beta", "d": "Delta", "e": "eps", "p": "P", "q": "q"}
 T7 = (((), ()), (), ((),))  # r.a{a,b}, r.b, r.c{a}
 for _m in NAMING_MAPS.values():
     assert len(set(_m.values())) == len(_m), "renaming must be injective"
@@ -455,7 +457,7 @@ def _tuplify(t):
 def run_shard(shard, tier, seed):
     global RENAMINGS
     # collision-free control naming: 'lengths' (components of 1-12 characters) in the quick tier, 'plain' in addition in the thorough one
-    RENAMINGS = ["lengths", "adversarial", "adversarial2", "adversarial3", "hyphen", "case"] + (["plain", "unicode"] if shard.get("tier") == "thorough" else [])
+    RENAMINGS = ["lengths", "adversarial", "adversarial2", "adversarial3", "hyphen", "case", "case2"] + (["plain", "unicode"] if shard.get("tier") == "thorough" else [])
     res = Result(shard["bound"])
     part = shard["part"]
     if part in ("rules", "layers"):
